@@ -150,6 +150,8 @@ def gen_source(rng, size=None):
         if rng.random() < 0.08:
             L.append("INC(R13, 1)")         # returns one instruction late: a run-time warning
         L.append("RETURN(R12, R13)")
+    if rng.random() < 0.12:
+        L.append("LABEL(%s)" % fresh("tail"))     # a label after the last instruction: it names no instruction
     if rng.random() < 0.15:
         # occasional blank lines / comments / two operations on one line
         k = rng.randrange(len(L))
@@ -351,7 +353,8 @@ def gen_command(rng, info, text_opts, kinds):
             loc = rng.choice(["9999", "nolabel", "0"])
         b = info.resolve(loc)
         if kind == "break":
-            return "%s %s" % (rng.choice(["break", "b"]), loc), ("(CBreak %d)" % b if b is not None else "CMutNop")
+            # a label after the last instruction names no instruction: `break` refuses it (fix D50)
+            return "%s %s" % (rng.choice(["break", "b"]), loc), ("(CBreak %d)" % b if b is not None and b < info.n else "CMutNop")
         if kind == "goto":
             return "%s %s" % (rng.choice(["goto", "g"]), loc), ("(CGoto %d)" % b if b is not None else "CMutNop")
         if rng.random() < 0.2:
